@@ -1,0 +1,17 @@
+// Copyright 2018-present the CoreDHCP Authors. All rights reserved
+// This source code is licensed under the MIT license found in the
+// LICENSE file in the root directory of this source tree.
+
+//go:build !verif
+
+package server
+
+import (
+	"net"
+
+	"github.com/insomniacslk/dhcp/dhcpv4"
+)
+
+// verifCaptureFrame is a verification hook, see verif_on.go (build tag
+// `verif`). In a normal build it does nothing.
+func verifCaptureFrame(net.Interface, *dhcpv4.DHCPv4, []byte) bool { return false }
